@@ -20,17 +20,21 @@ from .tlc import run_tlc
 
 def _tree_hash():
     h = hashlib.sha256()
-    roots = [os.path.join(REPO, "pybads"), os.path.join(common.VERIF, "bv"),
-             os.path.join(common.VERIF, "specs")]
-    for root in roots:
-        for dp, dn, fn in sorted(os.walk(root)):
-            dn[:] = sorted(d for d in dn if d != "__pycache__")
-            for f in sorted(fn):
-                if f.endswith((".py", ".ini", ".tla", ".cfg")):
-                    p = os.path.join(dp, f)
-                    h.update(p.encode())
-                    with open(p, "rb") as fh:
-                        h.update(fh.read())
+    for dp, dn, fn in sorted(os.walk(os.path.join(REPO, "pybads"))):
+        dn[:] = sorted(d for d in dn if d != "__pycache__")
+        for f in sorted(fn):
+            if f.endswith((".py", ".ini")):
+                p = os.path.join(dp, f)
+                h.update(p.encode())
+                with open(p, "rb") as fh:
+                    h.update(fh.read())
+    # only what a recorded + validated panel depends on (not the component specs / drivers)
+    for rel in ("bv/recorder.py", "bv/gpseams.py", "bv/projection.py", "bv/scenarios.py", "bv/runpanel.py",
+                "bv/tlc.py", "specs/BadsRunTrace.tla", "specs/BadsRules.tla"):
+        p = os.path.join(common.VERIF, rel)
+        h.update(rel.encode())
+        with open(p, "rb") as fh:
+            h.update(fh.read())
     return h.hexdigest()[:20]
 
 
